@@ -31,6 +31,7 @@ def main():
     os.makedirs(base)
     repo = base + "/repo"
     verif = base + "/verif"
+    ENV["GOCACHE"] = base + "/gocache"   # a fresh path rebuilds everything anyway; keep it out of the shared cache
     sh("git -C /repo worktree prune; git -C /verif worktree prune")
     rc, out = sh("git -C /repo worktree add -q --detach %s HEAD" % repo)
     assert rc == 0, out
